@@ -61,3 +61,18 @@ Definition k_flag_fvnot (E : flagcls) (x : Z) : list Z :=
   match fv_not E x with Some r => encf r | None => [3] end.
 Definition k_flag_const (E : flagcls) (i : Z) : list Z := encz (flag_const E i).
 Definition k_flag_bits (E : flagcls) (raw : Z) : list Z := encf (flag_from_bits E raw).
+
+(* layout.const(init) with mixed initialiser kinds, then const[path] for every path *)
+Definition k_xconst (l : layout) (i : xinit) (paths : list (list Z)) : list Z :=
+  encz (xlayout_const l i) ++
+  match xlayout_const l i with
+  | Okz v => flat_map (fun p => enc (const_path l v p)) paths
+  | _ => []
+  end.
+(* Signal(layout, init=...): any exception of layout.const is re-raised as TypeError; then
+   sig.as_value().init and ctx.get(sig[path]) for every path *)
+Definition k_siginit (l : layout) (i : xinit) (paths : list (list Z)) : list Z :=
+  match xlayout_const l i with
+  | Okz v => 1 :: v :: flat_map (fun p => enc (view_path l v p)) paths
+  | Errz _ => [0; 4]
+  end.
